@@ -104,6 +104,7 @@ type PX struct {
 	loops     map[*ssa.Function][]*loopInfo
 	havocked  map[string]*loopInfo // frame id + header index -> loop summarised on some path
 	modCache  map[*ssa.Function]map[string]bool
+	extraPure map[string]bool // further callees whose results are functions of their arguments for this exploration
 }
 
 func (w *World) newPX(h pxHooks) *PX {
@@ -224,6 +225,26 @@ func (p *PX) term(v ssa.Value, fr *pxFrame, st *pxState) *Term {
 				if t, ok := st.vals[p.reg(fr, al)+"*"]; ok {
 					return t
 				}
+				// a local struct built field by field (composite literal): a tuple of
+				// the values stored into its fields on this path
+				if stt, ok := x.Type().Underlying().(*types.Struct); ok && stt.NumFields() > 0 && stt.NumFields() <= 8 {
+					var args []*Term
+					var keys []string
+					any := false
+					for i := 0; i < stt.NumFields(); i++ {
+						ft, ok := st.vals[fmt.Sprintf("%s.%d", p.reg(fr, al), i)]
+						if ok {
+							any = true
+						} else {
+							ft = &Term{K: TLeaf, T: stt.Field(i).Type(), key: "zero:" + types.TypeString(stt.Field(i).Type(), nil)}
+						}
+						args = append(args, ft)
+						keys = append(keys, ft.key)
+					}
+					if any {
+						return &Term{K: TPure, Name: "struct", Args: args, T: x.Type(), key: "struct{" + strings.Join(keys, ",") + "}"}
+					}
+				}
 			}
 			if ia, ok := x.X.(*ssa.IndexAddr); ok {
 				// element of a symbolic byte sequence
@@ -315,7 +336,7 @@ func (p *PX) term(v ssa.Value, fr *pxFrame, st *pxState) *Term {
 		} else if sc := c.StaticCallee(); sc != nil {
 			name = qualifiedFnName(sc)
 		}
-		if pureMethods[name] {
+		if pureMethods[name] || p.extraPure[name] {
 			var args []*Term
 			var keys []string
 			if c.IsInvoke() {
@@ -491,6 +512,9 @@ func (p *PX) instrs(fr *pxFrame, b *ssa.BasicBlock, from int, st *pxState, k pxC
 			}
 			if fa, ok := x.Addr.(*ssa.FieldAddr); ok {
 				vt := p.term(x.Val, fr, st)
+				if al, isLocal := fa.X.(*ssa.Alloc); isLocal {
+					st.vals[fmt.Sprintf("%s.%d", p.reg(fr, al), fa.Field)] = vt
+				}
 				p.bumpField(fieldID(fa), st)
 				if vt.K == TPure && vt.Name == "append" {
 					st.vals["mem:"+p.fieldLoadKey(fa, fr, st)] = vt
